@@ -45,6 +45,9 @@ def gen_world(rng, fmt=None, apdep=None, n_models=(1, 8), n_ap=(1, 5), n_wav=(5,
     w['gz'] = allow_gz and rng.random() < 0.25
     w['subdir'] = rng.choice([0, 0, 1, 2]) if allow_subdir else 0
     w['n_par'] = rng.randint(*n_par)
+    w['cube_invalid_seed'] = rng.randrange(1 << 30) if rng.random() < 0.25 else None
+    w['par_name_seed'] = rng.randrange(1 << 30) if rng.random() < 0.3 else None
+    w['ap_order'] = rng.choice(['asc', 'asc', 'desc', 'shuffled'])          # order of the aperture axis in the files
     w['par_dtypes'] = [rng.choice(['D', 'D', 'D', 'E', 'E', 'K']) for _ in range(w['n_par'])]
     w['perm_seed'] = rng.randrange(1 << 30)
     w['logd_step'] = rng.choice([0.02, 0.05, 0.013, 0.1])
@@ -159,6 +162,12 @@ class World(object):
         self.names = names
         # parameters, pairwise distinct by > 1 % in every column
         self.par_names = ['PAR%d' % (k + 1) for k in range(spec['n_par'])]
+        if spec.get('par_name_seed') is not None:
+            # what the package author calls the columns is the author's business: names that coincide with the fitter's
+            # own quantities, mixed case, one much wider than a listing column
+            pool = ['AV', 'SCALE', 'CHI2', 'N_FITS', 'TSTAR', 'Mdot', 'inclination_of_the_outflow_cavity', 'x', 'LOG_D']
+            gp = np.random.default_rng(spec['par_name_seed'])
+            self.par_names = [pool[i] for i in gp.permutation(len(pool))[:spec['n_par']]]
         self.pars = {}
         for k, p in enumerate(self.par_names):
             # (large grids: spread over one decade instead, so that the values stay finite in single precision)
@@ -219,6 +228,16 @@ class World(object):
         self.ext_wav = np.logspace(-2, 4, int(spec.get('ext_n', 40)))
         self.ext_chi = 100.0 * self.ext_wav ** (-spec['ext_slope'])
 
+    def ap_storage_order(self):
+        n = self.val.shape[1]
+        kind = self.spec.get('ap_order', 'asc')
+        if n < 2 or kind == 'asc':
+            return np.arange(n)
+        if kind == 'desc':
+            return np.arange(n)[::-1].copy()
+        p = np.random.default_rng([self.spec['array_seed'], 4242]).permutation(n)
+        return p if not np.all(p == np.arange(n)) else p[::-1].copy()
+
     # -- sedfitter-side objects ---------------------------------------------------------------
     def filters(self, subset=None):
         from astropy import units as u
@@ -270,10 +289,15 @@ class World(object):
         if aside is not None:
             shutil.move(aside, os.path.join(d, 'convolved'))
         ext = '.fits.gz' if gz else '.fits'
+        # the order in which the files list the apertures (no order is prescribed): values, errors and aperture radii are
+        # permuted alike; the reference keeps thinking in increasing radius and keys every cell by the radius
+        apo = self.ap_storage_order()
+        aps_file = None if self.aps is None else self.aps[apo]
         if fmt == 1:
             os.makedirs(os.path.join(d, 'seds'))
             for i, nm in enumerate(self.names):
                 w, v, e = self.sed[i]
+                v, e = v[apo], e[apo]
                 asc = spec['asc'] if spec['asc_per_file'] is None else spec['asc_per_file'][i]
                 if not asc:
                     w, v, e = w[::-1], v[:, ::-1], e[:, ::-1]
@@ -281,17 +305,22 @@ class World(object):
                 if spec['subdir']:
                     sub = os.path.join(sub, nm[:spec['subdir']])
                     os.makedirs(sub, exist_ok=True)
-                write_sed_file(os.path.join(sub, nm + '_sed' + ext), nm, w, self.aps, v, e, dtype=self.dtype,
+                write_sed_file(os.path.join(sub, nm + '_sed' + ext), nm, w, aps_file, v, e, dtype=self.dtype,
                                unit=spec.get('flux_unit', 'mJy'), err_unit=spec.get('err_unit'),
                                distance_key=not (spec.get('sed_no_distance_key') and spec.get('flux_unit') != 'erg/s'),
                                columns=spec.get('sed_columns', 'plain'))
             self.write_params(d, self.perm if perm is None else perm, gz=gz)
         else:
-            w, v, e = self.wav, self.val, self.unc
+            w, v, e = self.wav, self.val[:, apo], self.unc[:, apo]
             if not spec['asc']:
                 w, v, e = w[::-1], v[:, :, ::-1], e[:, :, ::-1]
-            write_cube_file(os.path.join(d, 'flux.fits'), self.names, w, self.aps, v, e, dtype=self.dtype,
-                            unit=spec.get('flux_unit') if spec.get('flux_unit') in ('Jy', 'MJY', 'MJy', 'uJy') else 'mJy')
+            valid = None
+            if spec.get('cube_invalid_seed') is not None:
+                # per-model validity flags of the cube file (primary HDU): a legal part of the format that neither the
+                # convolver nor the fitter consults - flagged rows are ordinary rows
+                valid = (np.random.default_rng(spec['cube_invalid_seed']).random(self.n_models) > 0.4).astype(int)
+            write_cube_file(os.path.join(d, 'flux.fits'), self.names, w, aps_file, v, e, dtype=self.dtype,
+                            unit=spec.get('flux_unit') if spec.get('flux_unit') in ('Jy', 'MJY', 'MJy', 'uJy') else 'mJy', valid=valid)
             self.write_params(d, np.arange(self.n_models), gz=gz)
         write_conf(d, self.apdep, fmt, spec['logd_step'], spec['subdir'] if fmt == 1 else 0)
         return d
@@ -356,10 +385,10 @@ def write_sed_file(path, name, wav, aps, flux, err, dtype='f8', unit='mJy', dist
     fits.HDUList([h0, h1, h2, h3]).writeto(path, overwrite=True)
 
 
-def write_cube_file(path, names, wav, aps, val, unc, dtype='f8', unit='mJy', distance_cm=KPC_CM):
+def write_cube_file(path, names, wav, aps, val, unc, dtype='f8', unit='mJy', distance_cm=KPC_CM, valid=None):
     val = _from_mjy(val, unit, wav, distance_cm)
     unc = None if unc is None else _from_mjy(unc, unit, wav, distance_cm)
-    h0 = fits.PrimaryHDU(data=np.ones(len(names), dtype=int))
+    h0 = fits.PrimaryHDU(data=np.ones(len(names), dtype=int) if valid is None else np.asarray(valid, dtype=int))
     h0.header['DISTANCE'] = distance_cm
     h0.header['NWAV'] = len(wav)
     if aps is not None:
@@ -443,6 +472,10 @@ def read_conv(path):
             fl = fl[:, None]
             er = er[:, None]
         hd = h[0].header
+        if aps is not None and len(aps) == fl.shape[1] and len(aps) > 1:
+            # cells are keyed by aperture radius: hand them over in increasing radius whatever order the file uses
+            o = np.argsort(aps, kind='stable')
+            aps, fl, er = aps[o], fl[:, o], er[:, o]
         return {'names': [str(x).strip() for x in t['MODEL_NAME']], 'flux': fl, 'err': er, 'aps': aps,
                 'filtwav': hd.get('FILTWAV'), 'nmodels': hd.get('NMODELS'), 'nap': hd.get('NAP')}
 
@@ -475,12 +508,36 @@ def gen_source(rng, nf, name, flags=(0, 1, 1, 1, 2, 3, 4, 9), min_fit=0):
     r = rng.random()
     if r < 0.3:
         src['arrays'] = 'big' if r < 0.12 else ('strided' if r < 0.24 else 'tuple')
+    elif r < 0.4 and 4 not in valid:
+        # an integer-quantised catalogue: whole numbers held in integer arrays
+        src['arrays'] = 'int'
+        src['flux'] = [float(max(1, round(f))) for f in flux]
+        src['error'] = [float(rng.choice([0, 1])) if v in (2, 3) else float(max(1, round(e))) for v, e in zip(valid, err)]
+    # how the line of a data file is typed (same numbers): single blanks, tabs, aligned columns with leading blanks,
+    # exponent notation in either case
+    r = rng.random()
+    if r < 0.4:
+        src['line_fmt'] = 'tabs' if r < 0.1 else ('wide' if r < 0.2 else ('sci' if r < 0.3 else 'SCI'))
     return src
 
 
 def source_line(s):
-    return ' '.join([s['name'], repr(s['x']), repr(s['y'])] + ['%d' % v for v in s['valid']] +
-                    ['%r %r' % (f, e) for f, e in zip(s['flux'], s['error'])])
+    kind = s.get('line_fmt', 'plain')
+    if kind in ('sci', 'SCI'):
+        # fluxes and errors were generated with 7 significant digits, so this notation holds the same doubles
+        fm = '%.6e' if kind == 'sci' else '%.6E'
+        cells = [s['name'], repr(s['x']), repr(s['y'])] + ['%d' % v for v in s['valid']]
+        for f, e in zip(s['flux'], s['error']):
+            cells += [fm % f, fm % e]
+        if all(float(c) == v for c, v in zip(cells[3 + len(s['valid']):], [x for fe in zip(s['flux'], s['error']) for x in fe])):
+            return ' '.join(cells)
+        kind = 'plain'
+    cells = [s['name'], repr(s['x']), repr(s['y'])] + ['%d' % v for v in s['valid']] + ['%r %r' % (f, e) for f, e in zip(s['flux'], s['error'])]
+    if kind == 'tabs':
+        return '\t'.join(c.replace(' ', '\t') for c in cells)
+    if kind == 'wide':
+        return '  ' + '   '.join(c.replace(' ', '    ') for c in cells) + '  '
+    return ' '.join(cells)
 
 
 def make_source(s):
@@ -490,7 +547,13 @@ def make_source(s):
     o.x = float(s['x'])
     o.y = float(s['y'])
     kind = s.get('arrays', 'list')
-    if kind == 'big':
+    if kind == 'int' and not all(float(x) == int(x) for x in list(s['flux']) + list(s['error'])):
+        kind = 'list'                      # the content is no longer whole numbers (it was edited or rescaled)
+    if kind == 'int':
+        o.valid = np.array(s['valid'], dtype=int)
+        o.flux = np.array(s['flux'], dtype=int)
+        o.error = np.array(s['error'], dtype=int)
+    elif kind == 'big':
         o.valid = np.array(s['valid'], dtype='>i4')
         o.flux = np.array(s['flux'], dtype='>f8')
         o.error = np.array(s['error'], dtype='>f8')
